@@ -3,6 +3,7 @@ import KoordVerif.Proofs.C12
 import KoordVerif.Proofs.C12None
 import KoordVerif.Proofs.C12ExtStatic
 import KoordVerif.Proofs.C12ExtEnv
+import KoordVerif.Proofs.C12ExtParse
 /-
 C12 — property theorems (DESIGN.md §4 C12, Appendix A.5).
 
@@ -958,6 +959,301 @@ example : (runBatchE limDom false (fun _ => true) [[{ node := 0, tgt := some 150
 example : ((runBatchE limDom false chEx [[{ node := 0, tgt := some 200000 }], [{ node := 1, tgt := some 150000 }]] chS).1.cache 1) = none := by
   decide
 
+/-! ### the string layer: what koordlet reads from / writes to the cgroup files (Model/C12Parse.lean) -/
+
+/-- **str_dec_roundtrip**: strconv.ParseInt reads back what strconv.Itoa printed (any bit size that holds it). -/
+theorem str_dec_roundtrip (bits n : Nat) (h : n ≤ 2 ^ (bits - 1) - 1) : parseIntGo bits (showDec n) = some (n : Int) :=
+  parseIntGo_showDec bits n h
+
+/-- **str_cpuset_roundtrip**: cpuset.Parse (CPUSet.String s) = s for every set of CPU ids ≤ 4096. -/
+theorem str_cpuset_roundtrip (m : Nat) (h : m < 2 ^ 4097) : parseCpuset (fmtCpuset m) = some m :=
+  cpuset_roundtrip_log2 m h
+
+/-- … and NOT beyond: Parse does not range-check single elements, String joins them into a range, and Parse rejects
+    a range ending above maxAvailableCPUCount: "4100,4101" parses, its printed form "4100-4101" does not. -/
+theorem str_cpuset_roundtrip_beyond_4096_counterexample :
+    ¬ (parseCpuset ['4', '1', '0', '0', ',', '4', '1', '0', '1'] ≠ none →
+       parseCpuset ['4', '1', '0', '0', '-', '4', '1', '0', '1'] ≠ none) := by
+  decide
+
+/-- **str_merge_cpuset_sound**: on any two strings that parse, MergeConditionIfCPUSetIsLooser agrees with the
+    value-level `cpusetDom.merge` (flag, and the returned string parses to the merged set). -/
+theorem str_merge_cpuset_sound (old new : List Char) (o t : Nat)
+    (ho : parseCpuset old = some o) (ht : parseCpuset new = some t) (hb : t ||| o < 2 ^ 4097) :
+    ∃ str, mcCpuset old new = some (str, (cpusetDom.merge o t).2) ∧
+      parseCpuset str = some (cpusetDom.merge o t).1 :=
+  merge_condition_cpuset_sound old new o t ho ht hb
+
+/-- **str_same_cpuset_sound**: IsEqualStrCpus (the write-if-different test of cpuset.cpus) is `cpusetDom.same`. -/
+theorem str_same_cpuset_sound (a b : List Char) (x y : Nat) (ha : parseCpuset a = some x) (hb : parseCpuset b = some y) :
+    eqStrCpus a b = cpusetDom.same x y := eqStrCpus_sound a b x y ha hb
+
+/-- **str_merge_limit_sound**: memory.min/low/high ("max" = unlimited), cgroup-v1 cpu.cfs_quota_us (file shows "-1")
+    and cgroup-v2 cpu.max (file shows "<quota|max> <period>"): the merge conditions on the strings return the new
+    string and the flag of `limDom.merge` / `cfsV2Dom.merge`. -/
+theorem str_merge_limit_sound (o t : Int) (p : Nat) (ho : -1 ≤ o ∧ o ≤ maxInt64) (ht : -1 ≤ t ∧ t ≤ maxInt64) :
+    mcValueLarger (fmtLim o) (fmtLim t) = some (fmtLim t, (limDom.merge o t).2) ∧
+    mcCfsQuota false (fmtCfsV1 o) (fmtLim t) = some (fmtLim t, (limDom.merge o t).2) ∧
+    mcCfsQuota true (fmtCfsV2 o p) (fmtLim t) = some (fmtLim t, (cfsV2Dom.merge o t).2) :=
+  ⟨merge_condition_value_larger_sound o t ho ht, merge_condition_cfs_v1_sound o t ho ht,
+   merge_condition_cfs_v2_sound o t p ho ht⟩
+
+/-- malformed input is an error, never a value: the shapes the builder listed. -/
+example : parseCpuset "1-".toList = none ∧ parseCpuset "0-1-2".toList = none ∧ parseCpuset "3,,4".toList = none ∧
+    parseCpuset "abc".toList = none ∧ parseCpuset " 1".toList = none ∧ parseCpuset "0-4097".toList = none ∧
+    parseCpuset "".toList = some 0 ∧ parseCpuset "5-3".toList = some 0 ∧ parseCpuset "0-1,3".toList = some 11 ∧
+    parseCfsV2 "max 100000".toList = some (-1) ∧ parseCfsV2 "max".toList = none ∧ parseCfsV2 "5000 100000".toList = some 5000 ∧
+    parseLimNew "max".toList = some maxInt64 ∧ parseLimNew "-1".toList = some maxInt64 ∧ parseLimNew "-5".toList = some (-5) ∧
+    parseLimNew "1.5".toList = none ∧ mcCfsQuota false "max".toList "5".toList = none := by decide
+
+/-! ### no file is ever rewritten with the value it already holds -/
+
+/-- every write of the sequence `ws`, applied from `f`, changes the file it writes. -/
+def FreshWrites (f : Nat → α) (ws : List (Write α)) : Prop :=
+  ∀ k w, ws[k]? = some w → applyWrites f (ws.take k) w.1 ≠ w.2
+
+theorem freshWrites_append (f : Nat → α) (a b : List (Write α))
+    (ha : FreshWrites f a) (hb : FreshWrites (applyWrites f a) b) : FreshWrites f (a ++ b) := by
+  intro k w hk
+  by_cases h : k < a.length
+  · rw [List.getElem?_append_left h] at hk
+    have := ha k w hk
+    rwa [List.take_append_of_le_length (by omega)]
+  · have hk' : k - a.length + a.length = k := by omega
+    rw [List.getElem?_append_right (by omega)] at hk
+    have := hb (k - a.length) w hk
+    rw [List.take_append, applyWrites_append, List.take_of_length_le (by omega)]
+    exact this
+
+theorem runPass_fresh (step : St α → Upd α → St α × List (Write α)) (I : List (Upd α) → St α → Prop)
+    (hstep : ∀ u l s, I (u :: l) s → I l (step s u).1 ∧
+      (((step s u).2 = [] ∧ (step s u).1.files = s.files) ∨
+       (∃ w, (step s u).2 = [w] ∧ (step s u).1.files = setAt s.files w.1 w.2 ∧ s.files w.1 ≠ w.2))) :
+    ∀ l s, I l s → FreshWrites s.files (runPass step l s).2 := by
+  intro l
+  induction l with
+  | nil => intro s _ k w hk; simp [runPass] at hk
+  | cons u l ih =>
+    intro s h
+    obtain ⟨h1, h2⟩ := hstep u l s h
+    simp only [runPass]
+    rcases h2 with ⟨he, hf⟩ | ⟨w0, he, hf, hne⟩
+    · rw [he, List.nil_append, ← hf]; exact ih _ h1
+    · rw [he]
+      apply freshWrites_append
+      · intro k w hk
+        cases k with
+        | zero => simp at hk; subst hk; simpa [applyWrites] using hne
+        | succ k => simp at hk
+      · simp only [applyWrites]; rw [← hf]; exact ih _ h1
+
+section Fresh
+set_option linter.unusedSectionVars false
+variable {D : Dom α} (hD : DomEq D) (hm : D.mergeable = true) (exp : Bool)
+variable (levels : List (List (Upd α))) (s : St α) (T : Nat → α)
+include hD hm
+
+/-- **no_write_of_held_value**: no write of a batch stores the value the file holds at that moment (second half of the
+    no-rewrite clause), for every resource whose merged value differs from the old one when the merge condition fires
+    (`hmc`: union with a non-subset / a strictly larger limit) and whose write-if-different test is reflexive. -/
+theorem no_write_of_held_value (hmc : ∀ o t, (D.merge o t).2 = true → (D.merge o t).1 ≠ o)
+    (hrefl : ∀ a, D.same a a = true) (hc : CacheOK s) (hb : BatchOK levels s.files T) :
+    FreshWrites s.files (runBatch D exp levels s).2 := by
+  have a := runPass_fresh (step1 D exp) (J1 D s.files T)
+    (fun u l s' h => by
+      obtain ⟨g1, g2⟩ := J1_step hD hm exp s.files T u l s' h
+      refine ⟨g1, ?_⟩
+      rcases g2 with g | g
+      · exact Or.inl g
+      · refine Or.inr ⟨_, g.1, g.2.1, ?_⟩
+        have hf : s'.files u.node = s.files u.node := by simpa using h.2.2.2.2 u.node
+        simp only [hf, eff, g.2.2, if_true]
+        exact (hmc _ _ g.2.2).symm) _ _ (J1_start hD hm levels s T hc hb)
+  have b := runPass_fresh (step2 D exp) (J2 D s.files T)
+    (fun u l s' h => by
+      obtain ⟨g1, g2⟩ := J2_step hD exp s.files T u l s' h
+      refine ⟨g1, ?_⟩
+      rcases g2 with g | g
+      · exact Or.inl g
+      · refine Or.inr ⟨_, g.1, g.2.1, ?_⟩
+        have hf : s'.files u.node = eff D (s.files u.node) (T u.node) := by simpa using h.2.2.2.2 u.node
+        simp only [hf]
+        intro he
+        have := g.2.2; rw [he, hrefl] at this; exact absurd this (by simp)) _ _ (J2_start hD hm exp levels s T hc hb)
+  have a1 := runPass_apply (step1 D exp) (J1 D s.files T)
+    (fun u l s' h => by
+      obtain ⟨g1, g2⟩ := J1_step hD hm exp s.files T u l s' h
+      refine ⟨g1, ?_⟩
+      rcases g2 with g | g
+      · rw [g.1, g.2]; rfl
+      · rw [g.1, g.2.1]; rfl) _ _ (J1_start hD hm levels s T hc hb)
+  simp only [runBatch]
+  apply freshWrites_append _ _ _ a
+  rw [a1]
+  exact b
+
+end Fresh
+
+theorem merge_changes_cpuset (o t : Nat) (h : (cpusetDom.merge o t).2 = true) : (cpusetDom.merge o t).1 ≠ o := by
+  simp only [cpusetDom] at h ⊢
+  split at h
+  · simp at h
+  · split at h
+    · simp at h
+    · next h1 h2 =>
+      simp only [h1, h2, if_false, Bool.false_eq_true]
+      intro he
+      exact h2 (by simpa using he)
+
+theorem merge_changes_lim (o t : Int) (h : (limDom.merge o t).2 = true) : (limDom.merge o t).1 ≠ o := by
+  simp only [limDom, decide_eq_true_eq] at h ⊢
+  intro he; subst he; omega
+
+/-! ### multi-round suppression histories that switch the kubelet policy between rounds -/
+
+/-- one call of applyBESuppressCPUSet: static or none policy, cache entries expired?, the new suppressed set. -/
+structure Round where
+  static : Bool
+  exp : Bool
+  cpus : Nat
+
+/-- the caller (adjustByCPUSet) passes the besteffort dir's current cpuset as oldCPUSet. -/
+def runRound (paths : List Nat) (depth : Nat → Nat) (R root : Nat) (s : St Nat) (r : Round) : St Nat × List (Write Nat) :=
+  if r.static then staticPolicy r.exp paths depth (some R) r.cpus s
+  else nonePolicy r.exp paths r.cpus (s.files root) s
+
+def runRounds (paths : List Nat) (depth : Nat → Nat) (R root : Nat) : List Round → St Nat → St Nat × List (Write Nat)
+  | [], s => (s, [])
+  | r :: rs, s =>
+    let x := runRound paths depth R root s r
+    let y := runRounds paths depth R root rs x.1
+    (y.1, x.2 ++ y.2)
+
+theorem sp_after (paths : List Nat) (depth : Nat → Nat) (R cpus : Nat) (exp : Bool) (s : St Nat)
+    (hc : CacheOK s) (hnd : paths.Nodup) :
+    CacheOK (staticPolicy exp paths depth (some R) cpus s).1 ∧
+    applyWrites s.files (staticPolicy exp paths depth (some R) cpus s).2 =
+      (staticPolicy exp paths depth (some R) cpus s).1.files := by
+  have hndU : (spUpper paths depth).Nodup := hnd.sublist List.filter_sublist
+  have hndC : (spCtrs paths depth).Nodup := hnd.sublist List.filter_sublist
+  obtain ⟨c1, _, r1⟩ := c_after exp (spUpper paths depth) R s hc hndU
+  rw [sp_unfold]
+  by_cases h : cpus = 0
+  · simp only [h, if_true]; exact ⟨c1, r1⟩
+  · simp only [h, if_false]
+    obtain ⟨c2, _, r2⟩ := c_after exp (spCtrs paths depth) cpus _ c1 hndC
+    exact ⟨c2, by rw [applyWrites_append, r1, r2]⟩
+
+theorem np_after (paths : List Nat) (cpus old : Nat) (exp : Bool) (s : St Nat) (hc : CacheOK s) (hnd : paths.Nodup) :
+    CacheOK (nonePolicy exp paths cpus old s).1 ∧
+    applyWrites s.files (nonePolicy exp paths cpus old s).2 = (nonePolicy exp paths cpus old s).1.files := by
+  unfold nonePolicy
+  by_cases h : cpus = 0
+  · simp only [h, if_true]; exact ⟨hc, rfl⟩
+  · simp only [h, if_false]
+    obtain ⟨c1, _, r1⟩ := c_after exp paths (old ||| cpus) s hc hnd
+    obtain ⟨c2, _, r2⟩ := c_after exp paths.reverse cpus _ c1 ((List.reverse_perm paths).nodup_iff.mpr hnd)
+    exact ⟨c2, by rw [applyWrites_append, r1, r2]⟩
+
+section Rounds
+variable (parent : Nat → Option Nat) (paths : List Nat) (depth : Nat → Nat) (R root : Nat)
+
+/-- what every round starts from and re-establishes. -/
+def RoundInv (parent : Nat → Option Nat) (paths : List Nat) (R root : Nat) (s : St Nat) : Prop :=
+  CacheOK s ∧ Valid parent subMask s.files ∧ (∀ n ∈ paths, subMask (s.files n) R) ∧
+  (∀ n ∈ paths, subMask (s.files n) (s.files root))
+
+/-- **suppress_history_every_prefix_valid**: any sequence of applyBESuppressCPUSet rounds on one executor — static and
+    none policy in any order, every new set within the share pool `R`, the besteffort dir's own set as oldCPUSet — keeps
+    the BE subtree valid after every single write, and re-establishes the start condition for the next round. -/
+theorem suppress_history_every_prefix_valid (hnd : paths.Nodup)
+    (htop : paths.Pairwise (fun a b => parent a ≠ some b))
+    (hin : ∀ c p, parent c = some p → c ∈ paths ∧ p ∈ paths)
+    (hdep : ∀ c p, parent c = some p → depth c = depth p + 1)
+    (hmax : ∀ n ∈ paths, depth n ≤ 2)
+    (hroot : root ∈ paths ∧ depth root = 0) :
+    ∀ (rs : List Round) (s : St Nat), (∀ r ∈ rs, subMask r.cpus R) → RoundInv parent paths R root s →
+      RoundInv parent paths R root (runRounds paths depth R root rs s).1 ∧
+      ∀ k, Valid parent subMask (applyWrites s.files ((runRounds paths depth R root rs s).2.take k)) := by
+  intro rs
+  induction rs with
+  | nil => intro s _ hi; exact ⟨hi, fun k => by simpa [runRounds, applyWrites] using hi.2.1⟩
+  | cons r rs ih =>
+    intro s hcp hi
+    obtain ⟨hc, hv, hR, hroot'⟩ := hi
+    have hr := hcp r (by simp)
+    -- one round: prefixes valid, replay, invariant afterwards
+    have hone : (∀ k, Valid parent subMask (applyWrites s.files ((runRound paths depth R root s r).2.take k))) ∧
+        applyWrites s.files (runRound paths depth R root s r).2 = (runRound paths depth R root s r).1.files ∧
+        CacheOK (runRound paths depth R root s r).1 ∧
+        (∀ n ∈ paths, subMask ((runRound paths depth R root s r).1.files n) R) ∧
+        (∀ n ∈ paths, subMask ((runRound paths depth R root s r).1.files n) ((runRound paths depth R root s r).1.files root)) := by
+      unfold runRound
+      by_cases hs : r.static = true
+      · simp only [hs, if_true]
+        have hp := static_policy_every_prefix_valid parent paths depth R r.cpus r.exp s hc hnd htop hin hdep hmax hR hr hv
+        obtain ⟨c', rep⟩ := sp_after paths depth R r.cpus r.exp s hc hnd
+        have hfin := static_policy_final paths depth R r.cpus r.exp s hc hnd
+        have hrootv : (staticPolicy r.exp paths depth (some R) r.cpus s).1.files root = R := by
+          rw [hfin root]; simp [spFinal, hroot.1, hroot.2]
+        have hall : ∀ n ∈ paths, subMask ((staticPolicy r.exp paths depth (some R) r.cpus s).1.files n) R := by
+          intro n hn
+          rw [hfin n]
+          unfold spFinal
+          split
+          · exact subMask_refl R
+          · split
+            · exact hr
+            · exact hR n hn
+        exact ⟨hp, rep, c', hall, fun n hn => by rw [hrootv]; exact hall n hn⟩
+      · simp only [hs, if_false, Bool.false_eq_true]
+        have hp := none_policy_every_prefix_valid parent paths r.cpus (s.files root) r.exp s hc hnd htop hin hroot' hv
+        obtain ⟨c', rep⟩ := np_after paths r.cpus (s.files root) r.exp s hc hnd
+        by_cases h0 : r.cpus = 0
+        · have e : nonePolicy r.exp paths r.cpus (s.files root) s = (s, []) := by simp [nonePolicy, h0]
+          rw [e] at hp rep c' ⊢
+          exact ⟨hp, rep, c', hR, hroot'⟩
+        · obtain ⟨f1, _⟩ := none_policy_final_is_target paths r.cpus (s.files root) r.exp s h0 hc hnd
+          refine ⟨hp, rep, c', fun n hn => by rw [f1 n hn]; exact hr, fun n hn => ?_⟩
+          rw [f1 n hn, f1 root hroot.1]; exact subMask_refl _
+    obtain ⟨hp, rep, c', hR', hroot''⟩ := hone
+    have hv' : Valid parent subMask (runRound paths depth R root s r).1.files := by
+      have := hp (runRound paths depth R root s r).2.length
+      rwa [List.take_length, rep] at this
+    obtain ⟨i1, i2⟩ := ih (runRound paths depth R root s r).1 (fun x hx => hcp x (by simp [hx])) ⟨c', hv', hR', hroot''⟩
+    simp only [runRounds]
+    refine ⟨i1, ?_⟩
+    apply prefix_append (Valid parent subMask) s.files _ _ hp
+    intro k; rw [rep]; exact i2 k
+
+end Rounds
+
+/-- when calcBECPUSet fails (NodeCPUInfo missing) the static branch skips the recover step but still writes the
+    containers: outside the theorem's hypothesis, and indeed not safe (same tree and values as above). -/
+theorem static_policy_recover_failed_counterexample :
+    ¬ (∀ k, Valid spExParent subMask (applyWrites spExS.files
+        ((staticPolicy false [0, 1, 2] (fun n => n) none 60 spExS).2.take k))) := by
+  intro h
+  have := h 1 2 1 rfl
+  revert this; decide
+
+/-- policy-switching non-vacuity: besteffort(0) ← pod(1) ← container(2), all on 0-3, pool 0-7; static → 2-5, none → 2-3,
+    static → 0-1: the write sequence, and all hypotheses of suppress_history_every_prefix_valid hold on it. -/
+def spRounds : List Round := [⟨true, false, 60⟩, ⟨false, false, 12⟩, ⟨true, false, 3⟩]
+example : (runRounds [0, 1, 2] (fun n => n) 255 0 spRounds spExS).2 =
+    [(0, 255), (1, 255), (2, 60), (2, 255), (2, 12), (1, 12), (0, 12), (0, 255), (1, 255), (2, 3)] := by decide
+example : ∀ k, Valid spExParent subMask (applyWrites spExS.files
+    ((runRounds [0, 1, 2] (fun n => n) 255 0 spRounds spExS).2.take k)) :=
+  (suppress_history_every_prefix_valid spExParent [0, 1, 2] (fun n => n) 255 0 (by decide) (by simp [spExParent])
+    (by intro c p h; unfold spExParent at h; split at h <;> cases h <;> simp)
+    (by intro c p h; unfold spExParent at h; split at h <;> cases h <;> rfl)
+    (by intro n hn; simp at hn; rcases hn with h | h | h <;> subst h <;> decide)
+    ⟨by simp, rfl⟩ spRounds spExS (by decide)
+    ⟨by intro n v h; simp [spExS] at h,
+     by intro c p h; unfold spExParent at h; split at h <;> cases h <;> decide,
+     by intro n hn; simp at hn; rcases hn with h | h | h <;> subst h <;> decide,
+     by intro n hn; simp at hn; rcases hn with h | h | h <;> subst h <;> decide⟩).2
+
 /-! ### non-vacuity: a CPU-set *shift* on a 3-level tree (0 ← 1 ← 2, 0 ← 3) -/
 
 def exParent : Nat → Option Nat
@@ -1013,5 +1309,8 @@ example : (∀ k, Valid exParent subMask (applyWrites exS.files ((runBatch cpuse
       ex_valid.1 ex_valid.2,
    final_is_target cpusetDom_eq rfl false exLevels exS exT ex_cacheOK ex_batchOK,
    no_redundant_write cpusetDom_eq rfl false exLevels exS exT same_refl_cpuset ex_cacheOK ex_batchOK⟩
+
+example : FreshWrites exS.files (runBatch cpusetDom false exLevels exS).2 :=
+  no_write_of_held_value cpusetDom_eq rfl false exLevels exS exT merge_changes_cpuset same_refl_cpuset ex_cacheOK ex_batchOK
 
 end KoordVerif.C12
